@@ -57,6 +57,10 @@ chk("C13", "chainsim", "exploration",
     "Applies weakly (a pure function of the deposit log), decided as the first step of simulated histories: per run 6 deposit logs from simulated depositors (valid, top-ups via repeated pubkeys, proofs-of-possession under a wrong domain, undecodable pubkeys and signatures, amounts below/at/above 32 ETH, real Merkle proofs over the growing prefix, eth1 timestamps on both sides of MIN_GENESIS_TIME) are turned into genesis states by GenesisFromEth1(..., false) and by the model's initialize_beacon_state_from_eth1: all fields equal, IsValidGenesisState agrees, and the returned context passes the C07/C08 monitors.",
     "As C01. zrnt documents that it cannot build states with fewer validators than SLOTS_PER_EPOCH or without any active validator (no context can exist); such logs are accepted as refused when the model says they are not a valid genesis.",
     SIM + "reference-model comparison at the genesis step of simulated histories", "DESIGN.md section 6 C13")
+chk("C03", "chainsim", "exploration",
+    CHAIN + MODEL + "C03 faults: a byzantine proposer takes each honest block and applies one corruption from a catalogue of 70 (header slot/parent/proposer/state root; proposer signature flipped/zero/infinity/other key/other domain type/other fork version/other chain; randao; per operation kind: bad signature, out-of-window, out-of-range index, wrong bit length, no participants, extra participant, duplicated, not slashable, already slashed, slashing of a validator that is already withdrawable with headers/votes from when it was slashable, unsorted/duplicate indices, deposit count/order/proof/amount, exits future/twice/other validator/EIP-7044 domain, BLS change wrong key/twice, sync aggregate extra bit/bad signature/no bits with real signature; payload parent hash/randao/timestamp; withdrawals missing/amount/address/index/unexpected; blob commitments over the limit), re-signs it with a state root recomputed by the MODEL when the model still accepts (valid variants feed C01), and sends it as bytes; a corrupting link flips 1-3 bits of the frame. Verdicts: model rejects => zrnt (decode + StateTransition) must return an error and never panic; when only the stale state root stands in the way, zrnt is also run without result validation and must still refuse the content; model accepts => zrnt accepts with an identical post-state.",
+    "As C01. The complement of the valid set is sampled through the catalogue and bit flips, not enumerated. Variants with a slot more than 8 epochs ahead are skipped (process_slots of the specification itself walks every slot).",
+    SIM + "byzantine-proposer and corrupting-link fault injection with verdicts compared against an executable reference model", "DESIGN.md section 6 C03")
 chk("C04", "chainsim", "exploration",
     CHAIN + "C04 monitors at every seam where bytes leave or enter a node (signed blocks of 5 forks through ForkDecoder, beacon states of 5 forks on the restart/disk path): bytes written == ByteLength, FixedLength says variable, decode(encode(v)) re-encodes identically with the same root, struct-form bytes == tree-view bytes, JSON and YAML round trips; stream faults: legal short reads change nothing, a reader error at a PRNG-chosen byte and a failing writer surface as errors, truncated frames and a wrong first offset are refused (a cut at an element boundary of the trailing list is accepted only if it is itself a canonical encoding).",
     "PARTIAL by design: only types that cross a simulated seam are covered (signed blocks and everything nested in them, beacon states and everything nested in them, phase0..deneb); the 'every exported type x every value' part of the statement is a pure function of the value and is not decided by this technique; Electra, light-client and pending-request types never ride a seam here. No independent SSZ codec: the reference is agreement between the struct form and the tree-view form.",
@@ -107,8 +111,8 @@ engines = [
  {"name": "cachesim", "path": "sim/cachesim", "serves_properties": ["C16"], "kind_free_text": "tree of deposit histories sharing real PubkeyCache handles vs. per-handle list model"},
  {"name": "poolsim", "path": "sim/poolsim", "serves_properties": ["C20"], "kind_free_text": "operation pools fed by faulty arrival histories vs. set/relation model"},
  {"name": "schedsim", "path": "sim/schedsim", "serves_properties": ["C17"], "kind_free_text": "seeded cooperative scheduler over real goroutines on shared components; race detector; porcupine"},
- {"name": "chainsim", "path": "sim/chainsim", "serves_properties": ["C01", "C02", "C04", "C05", "C07", "C08", "C13", "C14", "C15", "C18"], "kind_free_text": "simulated beacon network on the real state transition; metamorphic/self oracles + fault enumeration"},
- {"name": "refspec", "path": "sim/refspec", "serves_properties": ["C01", "C02", "C07", "C13"], "kind_free_text": "independent executable reference model of the consensus spec (oracle, not an engine)"},
+ {"name": "chainsim", "path": "sim/chainsim", "serves_properties": ["C01", "C02", "C03", "C04", "C05", "C07", "C08", "C13", "C14", "C15", "C18"], "kind_free_text": "simulated beacon network on the real state transition; metamorphic/self oracles + fault enumeration"},
+ {"name": "refspec", "path": "sim/refspec", "serves_properties": ["C01", "C02", "C03", "C07", "C13"], "kind_free_text": "independent executable reference model of the consensus spec (oracle, not an engine)"},
  {"name": "fcsim", "path": "sim/fcsim", "serves_properties": ["C09", "C10", "C11"], "kind_free_text": "abstract block-tree histories on the real ProtoForkChoice/ProtoArray/ProtoVoteStore vs. naive GHOST + tree walk"},
 ]
 m = {
